@@ -54,6 +54,82 @@ fn err_class(e: &patronus::smt::SmtParserError) -> String {
     s.split('(').next().unwrap_or("Err").to_string()
 }
 
+/// Paths (child indices) of the sites of an ill-sorted edit: atoms that are declared symbols, or
+/// `(_ extract hi lo)` heads.
+fn collect_sites(e: &smtref::SExpr, sc: &smtref::Scopes, extract: bool, path: &mut Vec<usize>, out: &mut Vec<Vec<usize>>) {
+    match e {
+        smtref::SExpr::Atom(_) => {
+            if !extract && e.sym().map(|s| sc.get(s).is_some()).unwrap_or(false) {
+                out.push(path.clone());
+            }
+        }
+        smtref::SExpr::List(l) => {
+            if extract
+                && l.len() == 4
+                && l[0].sym() == Some("_")
+                && l[1].sym() == Some("extract")
+                && l[2].numeral().is_some()
+                && l[3].numeral().is_some()
+            {
+                out.push(path.clone());
+                return;
+            }
+            // let binders are not operand positions
+            let is_let = l.first().and_then(|x| x.sym()) == Some("let");
+            for (i, c) in l.iter().enumerate() {
+                if is_let && i == 1 {
+                    // only the bound terms, not the names
+                    if let smtref::SExpr::List(bs) = c {
+                        for (j, b) in bs.iter().enumerate() {
+                            if let smtref::SExpr::List(pair) = b {
+                                if pair.len() == 2 {
+                                    path.push(i);
+                                    path.push(j);
+                                    path.push(1);
+                                    collect_sites(&pair[1], sc, extract, path, out);
+                                    path.truncate(path.len() - 3);
+                                }
+                            }
+                        }
+                    }
+                    continue;
+                }
+                if i == 0 && !extract {
+                    // operator position
+                    if matches!(c, smtref::SExpr::Atom(_)) {
+                        continue;
+                    }
+                }
+                path.push(i);
+                collect_sites(c, sc, extract, path, out);
+                path.pop();
+            }
+        }
+    }
+}
+
+fn at_path<'a>(e: &'a smtref::SExpr, path: &[usize]) -> &'a smtref::SExpr {
+    let mut cur = e;
+    for i in path {
+        cur = match cur {
+            smtref::SExpr::List(l) => &l[*i],
+            a => a,
+        };
+    }
+    cur
+}
+
+fn at_path_mut<'a>(e: &'a mut smtref::SExpr, path: &[usize]) -> &'a mut smtref::SExpr {
+    let mut cur = e;
+    for i in path {
+        cur = match cur {
+            smtref::SExpr::List(l) => &mut l[*i],
+            a => a,
+        };
+    }
+    cur
+}
+
 /// Random model value of a sort, printed in a solver style.
 fn gen_value(t: &mut Tape, sort: &Sort) -> SVal {
     match sort {
@@ -406,7 +482,7 @@ impl Prop for C14 {
         crate::shim::install().map(|_| ())
     }
     fn rule(&self) -> String {
-        "(i) every SmtCommand variant and tape-decoded terms (as C05) written by serialize_cmd and read back with parse_expr / parse_command / read_command given the declared symbols: same command kind, same type, reference-evaluator equal under all (<= 10 bits) or 8 sampled assignments; (ii) random bit-vector/array model values (Bool, 1..200 bit, arrays incl. Bool index/data) printed by the independent printer in solver styles (binary, hex, true/false, store chains over as const with shadowed duplicate indices, let-bound sub-terms, extra whitespace/comments/line breaks) and read with parse_expr: value must equal the value printed; (iii) single-edit malformed variants (truncation inside a parenthesis, missing ')', extra ')', unterminated | or \") that the independent reader rejects: outcome must be Err, or Ok with the original's meaning; a panic or a different value fails; (v) end to end: SolverContext::get_value through the real SmtLibSolverCtx against the reference solver (all four profiles) with constants of Bool / 2-130 bit / array sorts pinned by assertions, the shim printing values in randomly chosen legal spellings: the value read must equal the pinned value. Non-trivial: (i) compound term with a coercion or n-ary form, (ii) array value with >= 2 stores or a let, (iii) every single-edit text; distinct by hash of the text.".into()
+        "(i) every SmtCommand variant and tape-decoded terms (as C05) written by serialize_cmd and read back with parse_expr / parse_command / read_command given the declared symbols: same command kind, same type, reference-evaluator equal under all (<= 10 bits) or 8 sampled assignments; (ii) random bit-vector/array model values (Bool, 1..200 bit, arrays incl. Bool index/data) printed by the independent printer in solver styles (binary, hex, true/false, store chains over as const with shadowed duplicate indices, let-bound sub-terms, extra whitespace/comments/line breaks) and read with parse_expr: value must equal the value printed; (iii) single-edit malformed variants (truncation inside a parenthesis, missing ')', extra ')', unterminated | or \") that the independent reader rejects: outcome must be Err, or Ok with the original's meaning; a panic or a different value fails; (iv) ill-sorted variants of writer output that the independent strict sort checker rejects (one operand replaced by a declared symbol of another sort; extract bounds reversed or beyond the operand): outcome must be Err, or Ok with an expression that type-checks node by node (a lenient reading such as `not` of a wider vector is not a wrong value); a panic or an ill-typed result fails; (v) end to end: SolverContext::get_value through the real SmtLibSolverCtx against the reference solver (all four profiles) with constants of Bool / 2-130 bit / array sorts pinned by assertions, the shim printing values in randomly chosen legal spellings: the value read must equal the pinned value. Non-trivial: (i) compound term with a coercion or n-ary form, (ii) array value with >= 2 stores or a let, (iii) every single-edit text; distinct by hash of the text.".into()
     }
     fn budget(&self, tier: Tier) -> Budget {
         match tier {
@@ -633,8 +709,63 @@ impl Prop for C14 {
                     return Ok(());
                 }
                 let chars: Vec<char> = good.chars().collect();
-                let edit = t.below(5);
+                let edit = t.below(7);
                 let bad: String = match edit {
+                    5 | 6 => {
+                        // (iv) ill-sorted variants of well-formed text: an operand replaced by a
+                        // declared symbol of another sort, or extract bounds outside the operand
+                        let sc = crate::props::c05::declare_all(ctx, &syms)?;
+                        let Ok(parsed) = smtref::read_one(&good) else { return Ok(()) };
+                        let mut sites: Vec<Vec<usize>> = vec![];
+                        collect_sites(&parsed, &sc, edit == 6, &mut vec![], &mut sites);
+                        if sites.is_empty() {
+                            rec.exclude("no site for an ill-sorted edit");
+                            return Ok(());
+                        }
+                        let site = sites[t.below(sites.len() as u32) as usize].clone();
+                        let mut edited = parsed.clone();
+                        let ok = if edit == 5 {
+                            let decl = sc.declared_consts();
+                            let old = at_path(&parsed, &site).sym().unwrap_or("").to_string();
+                            let old_sort = sc.get(&old).map(|b| b.sort.clone());
+                            let others: Vec<&(String, Sort)> =
+                                decl.iter().filter(|(_, srt)| Some(srt) != old_sort.as_ref()).collect();
+                            if others.is_empty() {
+                                false
+                            } else {
+                                let (name, _) = others[t.below(others.len() as u32) as usize];
+                                *at_path_mut(&mut edited, &site) = smtref::SExpr::Atom(smtref::Atom::Symbol(name.clone()));
+                                true
+                            }
+                        } else {
+                            // site = path of an `(_ extract hi lo)` list
+                            if let smtref::SExpr::List(l) = at_path_mut(&mut edited, &site) {
+                                let hi = l[2].numeral().unwrap_or(0);
+                                let lo = l[3].numeral().unwrap_or(0);
+                                if t.flag() || hi == lo {
+                                    l[2] = smtref::SExpr::Atom(smtref::Atom::Numeral((hi + 1 + t.below(300) as u64).to_string()));
+                                } else {
+                                    l[2] = smtref::SExpr::Atom(smtref::Atom::Numeral(lo.to_string()));
+                                    l[3] = smtref::SExpr::Atom(smtref::Atom::Numeral(hi.to_string()));
+                                }
+                                true
+                            } else {
+                                false
+                            }
+                        };
+                        if !ok {
+                            rec.exclude("no symbol of another sort declared");
+                            return Ok(());
+                        }
+                        // keep only variants that the strict sort checker rejects
+                        let term = if as_cmd { edited.list().and_then(|l| l.get(1)).cloned() } else { Some(edited.clone()) };
+                        let Some(term) = term else { return Ok(()) };
+                        if smtref::sort_of(&term, &sc, &mut vec![]).is_ok() {
+                            rec.exclude("edit produced a well-sorted text");
+                            return Ok(());
+                        }
+                        smtref::print_sexpr(&edited)
+                    }
                     0 => {
                         // truncate strictly inside the outermost parenthesis
                         let cut = 1 + t.below(chars.len().saturating_sub(1).max(1) as u32) as usize;
@@ -667,12 +798,20 @@ impl Prop for C14 {
                     }
                 };
                 // only texts that the independent reader rejects (or that are not one s-expression) count
-                if smtref::read_one(&bad).is_ok() {
+                if edit < 5 && smtref::read_one(&bad).is_ok() {
                     rec.exclude("edit produced a well-formed text");
                     return Ok(());
                 }
-                let edit_name = ["truncated", "missing-close", "extra-close", "unterminated-bar", "unterminated-string"][edit as usize];
-                rec.label(&format!("iii:{}{}", edit_name, if as_cmd { "/command" } else { "/term" }));
+                let edit_name = [
+                    "truncated",
+                    "missing-close",
+                    "extra-close",
+                    "unterminated-bar",
+                    "unterminated-string",
+                    "ill-sorted/operand-of-other-sort",
+                    "ill-sorted/extract-out-of-range",
+                ][edit as usize];
+                rec.label(&format!("{}:{}{}", if edit < 5 { "iii" } else { "iv" }, edit_name, if as_cmd { "/command" } else { "/term" }));
                 let which = if as_cmd { "parse_command" } else { "parse_expr" };
                 let outcome: Result<Result<Option<ExprRef>, String>, PanicInfo> = if as_cmd {
                     guard(|| match parse_command(ctx, &st, bad.as_bytes()) {
@@ -699,11 +838,23 @@ impl Prop for C14 {
                         ));
                     }
                     Ok(Err(_)) => {}
+                    Ok(Ok(None)) if edit >= 5 => {}
                     Ok(Ok(None)) => {
                         return Err(Failure::new(
                             format!("smt-read/malformed/{}/{}/wrong-value", which, edit_name),
                             format!("`{}` (from `{}`) read as a different command", bad, good),
                         ));
+                    }
+                    Ok(Ok(Some(r))) if edit >= 5 => {
+                        // a lenient reading (e.g. `not` of a wider bit-vector) is not a wrong value,
+                        // but whatever is returned must be a well-typed expression
+                        if let Err(m) = refeval::deep_type_check(ctx, &[r]) {
+                            return Err(Failure::new(
+                                format!("smt-read/{}/accepted-ill-typed", edit_name),
+                                format!("`{}` (from `{}`) was read as an ill-typed expression: {}", bad, good, m),
+                            ));
+                        }
+                        rec.label("iv:accepted-well-typed-reading");
                     }
                     Ok(Ok(Some(r))) => {
                         let mut rng = SplitMix(hash_bytes(tape));
